@@ -25,6 +25,10 @@ RULE = ('runs with layer children (-j N, or layers resumed after a NotImplemente
         'faults + completion order; non-trivial = a channel/child fault fired')
 HOWS = ['exit0', 'exit3', 'kill', 'segv']
 UNI = ['test_ünï', 'test_中文', 'test_' + 'x' * 300, 'test_αβ']
+# spellings a test id can have through parametrisation / __str__ (line-boundary characters of
+# str.splitlines that bytes.splitlines does not know, tabs, embedded newline, long)
+WEIRD = ['[line\u2028sep]', '[vt\x0bx]', '[ff\x0cx]', '[nel\x85x]', '[fs\x1cx]', '[a\nb]',
+         '[tab\there]', '[ünï 中]', '[' + 'y' * 400 + ']', '[ps\u2029x]', '[1 2 3 4]', '[cr\rx]']
 
 
 def hook_sites(world):
@@ -56,6 +60,14 @@ def make_world(rng, big=0, small=False):
         c['tests'].append({'name': rng.choice(UNI)})
         if world['modules'][0].get('suite') is not None:
             world['modules'][0]['suite'] = None
+    if rng.random() < 0.3:
+        # unusual id spellings on tests that are made to fail, so the names cross the channel
+        cs = [c for m_ in world['modules'] for c in m_['classes']]
+        for _ in range(rng.randint(1, 2)):
+            t = rng.choice(rng.choice(cs)['tests'])
+            if not t.get('deco'):
+                t['idx'] = rng.choice(WEIRD)
+                t['must_fail'] = rng.choice(['AssertionError', 'ValueError'])
     if big:
         L = world['layers'][0]['name']
         world['modules'][0]['classes'].append(
@@ -76,6 +88,9 @@ def gen(seed, thorough=False):
     disc = m.discover()
     plan = C.gen_test_faults(rng, disc, rng.choice([0, 1, 2, 3]),
                              excs=['AssertionError', 'ValueError', 'SkipTest'], p_occ=0.1)
+    for d in disc:
+        if d['t'].get('must_fail'):
+            plan.append(C.fault_entry(d, 'body', {'a': 'raise', 'exc': d['t']['must_fail']}))
     if big:
         plan.append({'site': 'test.body', 'ident': '*', 'a': 'raise',
                      'exc': rng.choice(['AssertionError', 'ValueError'])})
@@ -205,8 +220,10 @@ def run(spec, ctx):
                     last.setdefault(o['layer'], {}).setdefault(o['occ'], 0)
                     last[o['layer']][o['occ']] += 1
             want_ran += sum(d[max(d)] for d in last.values())
-        want_f += T.event_names(('failure', 'usuccess'), pid=0)
-        want_e += T.event_names(('error',), pid=0)
+        import re
+        flat = lambda n: re.sub(r'[\r\n]+', ' ', n.strip())  # noqa: E731  (one line per name)
+        want_f += [flat(n) for n in T.event_names(('failure', 'usuccess'), pid=0)]
+        want_e += [flat(n) for n in T.event_names(('error',), pid=0)]
         want_e += ['Layer: %s.tearDown' % m.full(l) for p_, l, h, _ in T.layer_failures
                    if p_ == 0 and h == 'tearDown']
         nsetup0 = len([1 for p_, l, h, _ in T.layer_failures if p_ == 0 and h == 'setUp'])
